@@ -535,8 +535,9 @@ impl<'a> G<'a> {
                 _ => (self.r.range(0, 100000) as i64 - 50000).to_string(),
             },
             Ty::Os => {
-                // short strings: a long one may not fit a 249-octet buffer at all (D15)
-                let n = if plain { 2 } else { *self.r.pick(&[1usize, 1, 2, 3, 8, 30]) };
+                // mostly short strings; once in a while one that may not fit a small transmit buffer at all
+                // (D15: the response series then never makes progress)
+                let n = if plain { 2 } else if self.r.chance(1, 40) { *self.r.pick(&[200usize, 241, 242, 255]) } else { *self.r.pick(&[1usize, 1, 2, 3, 8, 30]) };
                 let mut o = self.r.bytes(n);
                 o[0] = self.counter as u8;
                 hex(&o)
